@@ -84,6 +84,23 @@ def main(argv=None) -> int:
         parts, reason = core.run_sharded(prop, args.tier, args.seed, nshards, limit)
         for p in parts:
             ctx.merge_partial(p)
+    if reason is None and getattr(mod, "OPTIMIZED_PASS", True) and not os.environ.get("HV_OPT_CHILD") and not sys.flags.optimize:
+        # once more, on a slice of the workload, in an interpreter started with -O: nothing the property promises may hang on
+        # an assert statement (or on __debug__)
+        part, why = core.run_optimized_pass(prop, args.tier, args.seed, limit)
+        if part is None:
+            reason = why
+        else:
+            for v in part["violations"]:
+                v["what"] = v["what"] + " [in the pass under python -O]"
+                ctx.violations.append(v)
+            for k, n in part["viol_counts"].items():
+                ctx.viol_counts[k] = ctx.viol_counts.get(k, 0) + n
+            ctx.notes["optimized_interpreter_pass"] = {"evaluations": part["evaluations"], "violation_keys": sorted(part["viol_counts"]),
+                                                       "monitor_evaluations": {k: v for k, v in sorted(part["counters"].items())[:40]}}
+            ctx.counters["optimized_pass.evaluations"] = part["evaluations"]
+            if part["evaluations"] == 0:
+                reason = "the pass under python -O executed no case"
     return core.finish(ctx, mod, reason)
 
 
